@@ -7,4 +7,8 @@ a = s.index('<!-- SEEDED-TABLE-BEGIN -->') + len('<!-- SEEDED-TABLE-BEGIN -->')
 b = s.index('<!-- SEEDED-TABLE-END -->')
 t = subprocess.run(['python3', '/verif/tools/seeded_table.py'], capture_output=True, text=True).stdout
 s = s[:a] + '\n' + t + s[b:]
+a = s.index('<!-- FIXED-TABLE-BEGIN -->') + len('<!-- FIXED-TABLE-BEGIN -->')
+b = s.index('<!-- FIXED-TABLE-END -->')
+t = subprocess.run(['python3', '/verif/tools/findings_table.py'], capture_output=True, text=True).stdout
+s = s[:a] + '\n' + t + s[b:]
 open(p, 'w').write(s)
